@@ -51,7 +51,37 @@ class F64Codec:
         return x != x
 
 
-CODECS = {"i64": IntCodec, "f64": F64Codec}
+class StrCodec:
+    """std::string items under the harness' LengthFirst comparator: parsed to (length, text) so that Python's tuple order is that order"""
+    name = "str"
+
+    @staticmethod
+    def parse(s):
+        return (len(s), s)
+
+    @staticmethod
+    def render(x):
+        return x[1]
+
+    @staticmethod
+    def is_nan(x):
+        return False
+
+
+CODECS = {"i64": IntCodec, "f64": F64Codec, "str": StrCodec}
+
+
+def str_item(v):
+    """small integers -> short words over {a, b, c} of length 1..3 (many duplicates, several lengths)"""
+    v = abs(int(v)) % 39
+    if v < 3:
+        return "abc"[v]
+    if v < 12:
+        v -= 3
+        return "abc"[v // 3] + "abc"[v % 3]
+    v -= 12
+    return "abc"[v // 9] + "abc"[(v // 3) % 3] + "abc"[v % 3]
+
 
 # ------------------------------------------------------------------------------------------------ shape simulator
 # (k, n) level companion of the sketch: how many random choices an operation consumes, as a function of shapes only.
@@ -297,6 +327,16 @@ def line_cmp_c07(x, y):
 # ------------------------------------------------------------------------------------------------ generator pieces
 
 def rand_item(rng, codec, universe, pattern, j):
+    if codec is StrCodec:
+        if pattern == "asc":
+            return str_item(j)
+        if pattern == "desc":
+            return str_item(38 - j % 39)
+        if pattern == "const":
+            return "bb"
+        if pattern == "dups":
+            return str_item(rng.randrange(3) * 5)
+        return str_item(rng.randrange(39))
     if codec is IntCodec:
         if pattern == "asc":
             v = j
@@ -363,7 +403,7 @@ class QuantPart(Part):
         ]
 
     def one_history(self, rng, tier):
-        tname = rng.choice(["i64", "i64", "f64"])
+        tname = rng.choice(["i64", "i64", "i64", "f64", "f64", "str"])
         codec = CODECS[tname]
         ks = self.KS_QUICK if tier == "quick" else self.KS_THOROUGH
         h = ["T " + tname]
@@ -435,7 +475,13 @@ class QuantPart(Part):
                 emit("quant %d %s %d" % (s, rank_hex(rr), rng.randrange(2)))
             elif r < 0.97:
                 m = rng.choice([0, 1, 2, 3, 5])
-                if codec is IntCodec:
+                if codec is StrCodec:
+                    pts = sorted(set(StrCodec.parse(str_item(rng.randrange(39))) for _ in range(m)))
+                    lits = [p[1] for p in pts]
+                    if rng.random() < 0.2 and len(lits) >= 2:
+                        i = rng.randrange(len(lits) - 1)
+                        lits[i + 1] = lits[i] if rng.random() < 0.5 else lits[0]
+                elif codec is IntCodec:
                     pts = sorted(rng.sample(range(-universe - 2, universe + 2), min(m, 2 * universe)))
                     lits = [str(p) for p in pts]
                     if rng.random() < 0.2 and len(lits) >= 2:
